@@ -800,7 +800,8 @@ def _iter_unused_names(
         name for node in core.walk(scope, (ast.Nonlocal, ast.Global)) for name in node.names
     }
     for name in names_in_scope - preserve - declared_names:
-        if not any(core.walk(scope, ast.Name(id=name, ctx=(ast.Load)))):
+        # `del name` needs the binding just like a read does: `del _` would raise NameError.
+        if not any(core.walk(scope, ast.Name(id=name, ctx=(ast.Load, ast.Del)))):
             for node in core.walk(scope, ast.Name(id=name)):
                 yield node
 
